@@ -453,7 +453,9 @@ def ref_layer(g, kind, page_g, image, size, clip, rx, ry, origin, position, fixe
         def resolve(d, ref):
             return 'auto' if d == 'auto' else (d[1] if d[0] == 'px' else ref * d[1] / 100)
         w, h = ref_default_sizing(image, resolve(size[0], pw), resolve(size[1], ph), pw, ph)
-    if w <= 0 or h <= 0:
+    if w == 0 or h == 0:
+        return 'empty', painting        # nothing is painted; since the repair no error either
+    if w < 0 or h < 0:
         return None
     fr, xd, fb, yd = position
     x = ref_place(fr, xd, pw - w)
@@ -478,9 +480,11 @@ def oracle_bglayer(args, out):
     if want is None:
         return None
     if out.startswith('err'):
-        return f'layout_background_layer raised {out[4:]} for a non-empty image and area'
+        return (f'layout_background_layer raised {out[4:]} for a ' +
+                ('zero-sized tile (background-size 0 / empty area)' if want[0] == 'empty' else
+                 'non-empty image and area'))
     got = numbers(out)
-    if want[0] == 'none':
+    if want[0] in ('none', 'empty'):
         return None
     painting, size, position, positioning = want
     nums = [v for v in got if isinstance(v, Fraction)]
@@ -519,7 +523,7 @@ def ref_bgdraw(layer, rx, ry):
 
 def oracle_bgdraw(args, out):
     layer = ref_layer(*args)
-    if layer is None or layer[0] == 'none':
+    if layer is None or layer[0] in ('none', 'empty'):
         return None
     if out.startswith('err'):
         return f'draw_background_image raised {out[4:]}'
